@@ -79,7 +79,16 @@ View == <<Len(hist), LastOf(hist), impl, prop, last>>
 OptView == <<LastOf(hist), impl, prop, last>>     \* shortest path to every (state, operation)
 
 Terminal == Len(hist) = MaxLen \/ last.reason # ""
-FsmExport == (hist # <<>> /\ (ExportEvery \/ Terminal)) => PrintT("BEH " \o ToJson(FsmBeh))
+\* ExportEvery: one BEH per state (use with VIEW).  Otherwise all sequences of length MaxLen: printing is the
+\* expensive part of TLC here, so each state of length MaxLen-1 prints its whole fan-out in one BEHS line
+\* (prefix + the alphabet; every extension is still a state of the model and is judged there), and a path
+\* that ended earlier at a finding candidate prints itself.
+FsmExport ==
+  /\ (ExportEvery /\ hist # <<>>) => PrintT("BEH " \o ToJson(FsmBeh))
+  /\ (~ExportEvery /\ last.reason # "" /\ Len(hist) < MaxLen) => PrintT("BEH " \o ToJson(FsmBeh))
+  /\ (~ExportEvery /\ last.reason = "" /\ Len(hist) = MaxLen - 1) =>
+        PrintT("BEHS " \o ToJson([t |-> "fsm", sme |-> prop.sme, pre |-> hist,
+                                  ext |-> {<<k, d>> : k \in Kinds, d \in {0, 1}}]))
 OptExport == (hist # <<>> /\ (ExportEvery \/ Terminal)) => PrintT("BEH " \o ToJson(OptBeh))
 FsmReport == /\ last.reason # "" => PrintT("DISC " \o ToJson([last |-> last, beh |-> FsmBeh]))
              /\ (last.cls = "may" /\ ExportEvery) => PrintT("MAY " \o ToJson([ph |-> last.ph, k |-> last.k, rel |-> last.rel,
